@@ -377,7 +377,7 @@ PROPS["C16"] = dict(
                 "paths from 10 kinds of root (array, static_array, array_ref, each const and not; views held by auto&& and auto const& of a mutable and of a const array) for D 1..3 out of indexing, "
                 "front/back, call syntax (indices, ranges, _, ALL in every position), begin/end/cbegin/cend, *, it[n], elements() and its iterators, home() cursors, std::as_const / std::move and 19 "
                 "view-forming operations: bounded-exhaustively to depth 2 (quick) or 3 (thorough) plus seeded random paths four steps deeper. Phase 1 instantiates every path on its root type with the "
-                "real compiler and follows every observer of the resulting object (chained [], *, begin(), elements(), home(), front(), operator()()) down to element references: none may be "
+                "real compiler and follows every observer of the resulting object (chained [], *, operator-> of iterators and sub-array pointers, begin(), elements(), home(), front(), operator()()) down to element references: none may be "
                 "modifiable at the end of a read-only path (nor base()/data_elements() of an array or view point to non-const), one must be modifiable at the end of a mutable path. Phase 2 builds and "
                 "links real statements (assignment from an array, from an lvalue / rvalue of the same type, swap, member swap, fill, elements() assignment) for every distinct type found at the end of a "
                 "read-only path: none may build; assignment from an array must build for the types at the end of mutable paths; a named object of a view or array_ref type must not be copy-constructible."),
